@@ -90,6 +90,14 @@ class C06(Prop):
                  [0, "insert", "b0", storegen.rand_ev(rng)], [0, "create", "b1", storegen.mk_meta(rng, "b1")],
                  [0, "update", "b1", {"name": "renamed"}], [0, "insert", "b1", storegen.rand_ev(rng)], [0, "delete", "b0", ["ref", 0]]]
         directed.append({"lazy": True, "ops": mixed})
+        # (c) bucket operations issued while NOTHING is buffered (right after a read): an update of several fields at once,
+        # the deletion of a populated bucket - neither may be visible in part
+        calm = [[0, "create", "b0", m0], [0, "create", "b1", storegen.mk_meta(rng, "b1")],
+                [0, "bulk", "b0", [storegen.rand_ev(rng) for _ in range(6)]], [0, "read", "b0"],
+                [0, "update", "b0", {"type": "t2", "data": "{\"z\": 1}", "name": "n2", "hostname": "h2"}], [0, "read", "b0"],
+                [0, "delbucket", "b0"], [0, "insert", "b1", storegen.rand_ev(rng)], [0, "read", "b1"],
+                [0, "update", "b1", {"client": "c2", "data": "{\"k\": [2]}"}], [0, "read", "b1"], [0, "delbucket", "b1"]]
+        directed.append({"lazy": True, "ops": calm})
         for i in range(ctx.pick(2, 12) + len(directed)):
             h = directed[i] if i < len(directed) else commit_history(rng, rng.randint(12, 30) if i % 2 else 60, heavy_delete=(i % 3 == 0))
             for be in ("sqlite", "peewee"):
